@@ -82,6 +82,10 @@ CHECKS['C12'] = dict(cat='exploration', ref='4 C12',
    text='Three runtime monitors over hostile programs (unique-marker hostile strings in every syntactic position, variables named after every context key): (1) a taint/whitelist rule on the AST of the emitted code (only function definitions named by heads, whitelisted node types, call targets are API names, every string constant equals a source name exactly, loads are local or API, stores never shadow the API); (2) an execution monitor - sys.addaudithook during load and queries may see only the compile/exec of the script, sys.monitoring CALL events inside script code may target only this engine\'s API callables, function globals contain only the API with empty __builtins__; (3) hostile run-time queries with spy wrappers on every API entry; plus a metamorphic check that renaming variables to hostile names changes no answer.',
    note='Trusted: CPython audit events and sys.monitoring CALL events as the execution record; the AST whitelist as the documented shape of generated code. Head names that are not identifiers are rejected by the compiler and only counted.',
    tech='runtime monitors: audit hook, sys.monitoring CALL callee whitelist, AST taint rule on emitted code, API spies')
+CHECKS['C04'] = dict(cat='exploration', ref='4 C04',
+   text='Schedule-differential monitor: each engine history (and each suspended query) is run alone in a freshly forked pristine interpreter, and then together with 1-3 other engines using the same predicate names under back-to-back, round-robin and random step interleavings, within one engine as simultaneously suspended queries, and on 2-8 threads with switch interval 1e-6 and seeded sleep(0) injection on sys.monitoring LINE events; every per-engine observation list must equal its solo run. Thread switches actually observed between monitored lines are counted.',
+   note='Trusted: the solo run in a pristine forked interpreter as the meaning of "alone"; no reference interpreter involved. evaluate_bounded excluded as stated; ANTLR compilation happens before threads start.',
+   tech='schedule-differential runtime monitoring with yield injection on LINE events and thread-switch counting')
 PENDING = {}
 
 def main():
